@@ -656,6 +656,17 @@ class Interp:
             if name in ("all", "none", "any"):
                 # SimdBool = bool
                 return BoolV(x.b if name != "none" else not x.b)
+        if isinstance(x, Tup) and ("slice" in path or "array" in path) and len(args) >= 1:
+            if name == "split_first" and len(args) == 1:
+                return Opt(True, Tup([x.vs[0], Tup(list(x.vs[1:]))])) if x.vs else Opt(False)
+            if name == "split_last" and len(args) == 1:
+                return Opt(True, Tup([x.vs[-1], Tup(list(x.vs[:-1]))])) if x.vs else Opt(False)
+            if name in ("first", "last") and len(args) == 1:
+                return Opt(True, x.vs[0 if name == "first" else -1]) if x.vs else Opt(False)
+            if name == "len" and len(args) == 1:
+                return Sc(self.dom.const(len(x.vs)))
+            if name == "is_empty" and len(args) == 1:
+                return BoolV(not x.vs)
         if isinstance(x, Tup) and name == "map" and len(args) == 2 and "array" in path:
             return Tup([self.call_closure(unref(args[1]), [i], e) for i in x.vs])
         if isinstance(x, Tup) and name == "each_ref" and len(args) == 1 and "array" in path:
@@ -689,6 +700,15 @@ class Interp:
                 return IterV([Tup([Sc(self.dom.const(k)), i]) for k, i in enumerate(x.items)])
             if name == "rev" and len(args) == 1:
                 return IterV(list(reversed(x.items)))
+            if name in ("skip", "take") and len(args) == 2 and isinstance(unref(args[1]), Sc):
+                cv = self.dom.concrete(unref(args[1]).v) if hasattr(self.dom, "concrete") else None
+                if cv is not None and cv == int(cv) and cv >= 0:
+                    return IterV(x.items[int(cv):] if name == "skip" else x.items[:int(cv)])
+            if name == "next" and len(args) == 1 and isinstance(args[0], Ref):
+                if not x.items:
+                    return Opt(False)
+                first = x.items.pop(0)
+                return Opt(True, first)
             if name == "zip" and len(args) == 2 and isinstance(unref(args[1]), (IterV, Tup)):
                 o = unref(args[1])
                 oi = o.items if isinstance(o, IterV) else o.vs
@@ -1550,6 +1570,27 @@ class Interp:
             if base.shape == ("1", "1"):
                 return Sc(base.p)
             return Sc(base.p)  # a generic element
+        if isinstance(base, Tup) and isinstance(idx, Rec) and idx.adt in ("std::Range", "RangeFrom", "RangeTo", "std::RangeInclusive", "RangeFull"):
+            # a constant sub-slice of an array / slice literal
+            def cst(v, default):
+                if v is None:
+                    return default
+                v = unref(v)
+                cv = self.dom.concrete(v.v) if isinstance(v, Sc) and hasattr(self.dom, "concrete") else None
+                if cv is None or cv != int(cv):
+                    self.unsupported("slice bound", e)
+                return int(cv)
+            lo = cst(idx.f.get("start"), 0)
+            hi = cst(idx.f.get("end"), len(base.vs))
+            if idx.adt == "std::RangeInclusive":
+                hi += 1
+            if 0 <= lo <= hi <= len(base.vs):
+                return Tup(list(base.vs[lo:hi]))
+        if isinstance(base, Tup) and isinstance(idx, Sc):
+            # a constant index into an array / slice literal
+            cv = self.dom.concrete(idx.v) if hasattr(self.dom, "concrete") else None
+            if cv is not None and cv == int(cv) and 0 <= int(cv) < len(base.vs):
+                return base.vs[int(cv)]
         self.unsupported("index", e)
 
     def ev_tup(self, e, env):
@@ -1641,6 +1682,12 @@ class Interp:
                 a0 = call["args"][0]
                 if a0["k"] == "path" and a0["res"].get("r") == "local":
                     itv = unref(self.ev(a0, env))
+                    if isinstance(itv, Tup):
+                        itv = IterV(list(itv.vs))     # `for c in table` over an array / slice literal
+                elif a0["k"] in ("index",) or (a0["k"] == "addr" and a0["a"]["k"] in ("index", "path")):
+                    itv = unref(self.ev(a0, env))
+                    if isinstance(itv, Tup):
+                        itv = IterV(list(itv.vs))
                 elif a0["k"] in ("array", "addr", "mcall", "tup") and not any(
                         n.get("k") in ("assign", "assignop", "closure") for n in _walk_expr(a0)):
                     # a literal table (array of tuples, possibly through .iter()/.into_iter()): evaluated once, no effects
